@@ -24,15 +24,16 @@ func init() {
 		Stub:              []string{"as the NET world (C02)"},
 		FaultsNotInjected: []string{"Byzantine votes (equivocation, wrong kind/credential, stale/future): injected in the VOTER world part of C03", "certificate rounds (ACoCHTFrequency constant)"},
 		QuickBudget:       35 * time.Second, ThoroughBudget: 12 * time.Minute,
-		MinRuns:           6,
-		Exec:              runC03Net,
-		PanicClass:        kit.PanicInRepo("engine-panic"),
+		MinRuns:        6,
+		Exec:           runC03Net,
+		ExpectedProbes: []string{"precommit-signed", "commit-announced", "precommit-at-exact-quorum", "round-index-timeout"},
+		PanicClass:     kit.PanicInRepo("engine-panic"),
 	})
 }
 
 type commitMonitor struct {
 	r         *kit.Run
-	byHeight  map[int]map[uint64]common.Hash // node -> height -> committed hash
+	byHeight  map[int]map[uint64]common.Hash                                // node -> height -> committed hash
 	delivered map[int]map[voteKey]map[common.Hash]map[common.Address]uint32 // node -> (round,index,kind) -> hash -> sender -> weight
 	own       *voteHistory
 }
